@@ -18,14 +18,16 @@ def tasks(tier):
     from props.mandoline_parents import parent_tasks
     from props.mandoline_boxes import box_tasks
     from props.mandoline_parents import kernel_tasks2
-    return kernel_tasks("C07", ["expand", "coords"]) + parent_tasks("C07") + box_tasks("C07", ["slice"]) + kernel_tasks2("C07", ("ortho", "paint"))
+    return kernel_tasks("C07", ["expand", "coords"]) + parent_tasks("C07") + box_tasks("C07", ["slice"]) + kernel_tasks2("C07", ("ortho", "paint")) + \
+        __import__("props.mandoline_parents", fromlist=["names_tasks"]).names_tasks("C07")
 
 
 def canaries(tier):
     from props.mandoline_parents import parent_canaries
     from props.mandoline_boxes import box_canaries
     from props.mandoline_parents import kernel_canaries2
-    return kernel_canaries(["expand", "coords"]) + parent_canaries() + box_canaries(["slice"]) + kernel_canaries2() + kernel_canaries2(("paint",))
+    return kernel_canaries(["expand", "coords"]) + parent_canaries() + box_canaries(["slice"]) + kernel_canaries2() + kernel_canaries2(("paint",)) + \
+        __import__("props.mandoline_parents", fromlist=["names_canaries"]).names_canaries()
 
 
 SCENARIO_TIMEOUT = 500
